@@ -19,7 +19,10 @@ Definition x_check_roundtrip := check_roundtrip.
 Definition x_check_accepted_wf := check_accepted_wf.
 Definition x_check_expand := check_expand.
 Definition x_parse_row := parse_row.
+Definition x_model_expand_agrees := model_expand_agrees.
+Definition x_expand_core := expand_core.
+Definition x_convert_core := convert_core.
 Definition x_keys_sorted := keys_sorted.
 
 Extraction "model.ml" x_load x_parse_layout x_convert x_expand x_spec_load x_to_json x_outcome_eqb
-  x_layout_eqb x_json_eqb x_wf_basic x_check_roundtrip x_check_accepted_wf x_check_expand x_parse_row x_keys_sorted.
+  x_layout_eqb x_json_eqb x_wf_basic x_check_roundtrip x_check_accepted_wf x_check_expand x_parse_row x_keys_sorted x_model_expand_agrees x_expand_core x_convert_core.
